@@ -343,6 +343,12 @@ def engine_isolation(rep):
 
 
 MUTATING_SESSIONS = [
+    # game objects built with their constructors' defaults and then filled: every engine starts with empty ones
+    ("from bardic.stdlib.inventory import Inventory\nfrom bardic.stdlib.relationship import Relationship\nfrom bardic.stdlib.economy import Shop, Wallet\n"
+     ":: Start\n~ bag = Inventory()\n~ chest = Inventory(5)\n~ ann = Relationship('Ann', 50, 50, 0)\n~ shop = Shop([{'name': 'Gem', 'weight': 1, 'value': 2}])\n~ w = Wallet(9)\n"
+     "Bag {len(bag.items)} chest {len(chest.items)} topics {len(ann.topics_discussed)}\n+ [take] -> Take\n\n"
+     ":: Take\n~ bag.add({'name': 'Lamp', 'weight': 1})\n~ ann.discuss_topic('lamps')\n~ ok = shop.buy('Gem', w, chest)\n"
+     "Bag {len(bag.items)} chest {len(chest.items)} topics {len(ann.topics_discussed)} stock {len(shop.items)} gold {w.gold}\n+ [again] -> Take\n+ [restart] -> Start\n", [0, 0, 1, 0]),
     # stories whose passages change values IN PLACE that came out of the compiled story (parameter defaults, literals in
     # statements, loop collections): (source, choice indices)
     (":: Start\nHi\n+ [pack] -> Pack\n\n:: Pack(bag=[], extra={})\n~ bag.append(1)\n~ extra['k'] = len(bag)\nbag {bag} {extra}\n+ [again] -> Pack\n+ [back] -> Start\n", [0, 0, 0, 1, 0]),
